@@ -15,6 +15,7 @@ use super::{
 };
 use crate::{
     interp::{Interpreter, JmpWhen},
+    types::CelByteCode,
     BindContext, ByteCode, CelError, CelResult, CelValue, CelValueDyn, Program, StringTokenizer,
 };
 
@@ -1521,6 +1522,13 @@ impl<'l> CelCompiler<'l> {
         let mut i = Interpreter::empty();
         i.add_bindings(&self.bindings);
         let bc = member_prime_node.into_unresolved_bytecode().resolve();
+
+        // The value of a call that reads the clock belongs to the moment the
+        // program runs, not to the moment it was compiled.
+        if reads_clock(&bc) {
+            return CompiledProg::with_bytecode(bc);
+        }
+
         let r = i.run_raw(&bc, true);
 
         match r {
@@ -1531,6 +1539,37 @@ impl<'l> CelCompiler<'l> {
             _ => CompiledProg::with_bytecode(bc),
         }
     }
+}
+
+/// True when the code, or a code block it passes to a function or macro,
+/// calls `now()` or the zero-argument `timestamp()`.
+fn reads_clock(bc: &CelByteCode) -> bool {
+    // the identifier most recently pushed: the callee when a CALL follows
+    let mut callee: Option<&str> = None;
+
+    for code in bc.iter() {
+        match code {
+            ByteCode::Push(CelValue::Ident(name)) => callee = Some(name.as_str()),
+            ByteCode::Push(CelValue::ByteCode(block)) => {
+                if reads_clock(block) {
+                    return true;
+                }
+                callee = None;
+            }
+            ByteCode::Access => {}
+            ByteCode::Call(n_args) => {
+                match callee {
+                    Some("now") => return true,
+                    Some("timestamp") if *n_args == 0 => return true,
+                    _ => {}
+                }
+                callee = None;
+            }
+            _ => callee = None,
+        }
+    }
+
+    false
 }
 
 fn contains_error(val: &CelValue) -> bool {
